@@ -186,6 +186,10 @@ namespace bloch::runtime {
         }
         std::uniform_real_distribution<double> dist(0.0, 1.0);
         double r = dist(rng);
+#ifdef BLOCH_VERIF_HOOKS
+        if (verif::draw)
+            r = verif::draw(this, "reset", q, p1, r);
+#endif
         bool one = r < p1;
         if (!one && p0 == 0.0)
             one = true;  // all amplitude is in |...1>: nothing to sample
